@@ -126,6 +126,7 @@ class Sim:
         self.notes = []
         self.sig = hashlib.sha1()
         self.nshared = 0
+        self.sig_items = []
         self.nactors = 0
         self.last_progress_step = 0
         self.jobs = {j["name"]: j for j in scen["jobs"]}
@@ -315,8 +316,25 @@ class Sim:
         if k == "waited":
             self.pending.pop(msg["child"], None)
 
+    @staticmethod
+    def wait_zombie(pid, limit=3.0):
+        """A job probe's parent polls it with waitpid(WNOHANG): the socket EOF can reach the driver a moment before the
+        process is reapable.  Wait until it is (state Z) or gone, so that what the parent sees next does not depend on real time."""
+        t = time.time() + limit
+        while time.time() < t:
+            try:
+                with open(f"/proc/{pid}/stat") as f:
+                    st = f.read()
+                if st[st.rfind(")") + 2] in "ZX":
+                    return
+            except (OSError, IndexError):
+                return
+            time.sleep(0.0005)
+
     def on_close(self, a):
         a.state = "dead"
+        if a.role == "probe" and a.pid:
+            self.wait_zombie(a.pid)
         if a.pid in self.rounds:
             self.round_ended.append(a.pid)
         try:
@@ -426,6 +444,8 @@ class Sim:
         self.nshared += 1
         self.last_progress_step = self.steps
         self.sig.update(f"{a.host if a else '-'}|{what}|{obj};".encode())
+        if self.scen.get("sig_list"):
+            self.sig_items.append(f"{self.steps}:{a.host if a else '-'}|{what}|{obj}")
 
     # ------------------------------------------------------------------ results on disk
     def _rows_on_disk(self):
@@ -1944,6 +1964,7 @@ class Sim:
             "inner_failure_count": len(self.inner_failures),
             "nshared": self.nshared,
             "sig": self.sig.hexdigest()[:16],
+            "sig_items": self.sig_items if self.scen.get("sig_list") else None,
             "epochs": self.epoch + 1,
             "killed_nodes": sum(1 for b in self.batches.values() if b.get("killed")),
             "scancels": len(self.scancelled),
